@@ -22,9 +22,9 @@ TraceLog == ndJsonDeserialize("trace.ndjson")
 
 VARIABLES l,       \* next line
           cfg,     \* the chain of the current trace: [n, body, w]
-          sched,   \* number of headers the queue accepted for download
+          sched,   \* ids of the headers the queue accepted for download
           nd,      \* number of results handed out
-          dset,    \* numbers handed out
+          dset,    \* ids of the headers handed out
           viol,    \* set of <<clause, discriminator set, line>>
           fired    \* per clause: how often its antecedent held
 vars == <<l, cfg, sched, nd, dset, viol, fired>>
@@ -36,21 +36,23 @@ InFlight(pd, h) == LET F[ps \in SUBSET DOMAIN pd] ==
                           IF ps = {} THEN 0 ELSE LET p == CHOOSE x \in ps : TRUE IN Occ(pd[p], h) + F[ps \ {p}]
                    IN F[DOMAIN pd]
 
-\* one batch of results r = sequence of <<number, body id, txroot matches, header is the scheduled one>>, handed out when
-\* `have` results were out already.  Each operator returns the set of discriminators of the failures.
+\* one batch of results r = sequence of <<number, body id, txroot matches, header is one of the chain's, header id, parent hash
+\* is the hash of the header handed out just before (the origin for the first)>>, handed out when `have` results were out
+\* already.  Each operator returns the set of discriminators of the failures.
 OrderFails(r, have) == { IF r[i][1] > have + i THEN "gap" ELSE "back" : i \in { k \in DOMAIN r : r[k][1] # have + k } }
-OnceFails(r, seen) == { "again" : i \in { k \in DOMAIN r : r[k][1] \in seen \/ \E m \in DOMAIN r : m # k /\ r[m][1] = r[k][1] } }
+                       \cup { "link" : i \in { k \in DOMAIN r : ~r[k][6] } }
+OnceFails(r, seen) == { "again" : i \in { k \in DOMAIN r : r[k][5] \in seen \/ \E m \in DOMAIN r : m # k /\ r[m][5] = r[k][5] } }
 BodyFails(r) == { IF ~r[i][4] THEN "header" ELSE IF ~r[i][3] THEN "root" ELSE "body"
-                    : i \in { k \in DOMAIN r : ~r[k][3] \/ ~r[k][4] \/ ~(r[k][1] \in 1..cfg.n) \/ r[k][2] # cfg.body[r[k][1]] } }
+                    : i \in { k \in DOMAIN r : ~r[k][3] \/ ~r[k][4] \/ ~(r[k][5] \in DOMAIN cfg.body) \/ r[k][2] # cfg.body[r[k][5]] } }
 
 \* "work ... is handed to others": every header accepted and not yet handed out is waiting in the task queue, in flight with
 \* exactly one peer, or complete and waiting in the window -- exactly one of these
-LostSet(o, sc, ds) == { h \in 1..sc : h \notin ds /\ Occ(o.tq, h) + InFlight(o.pd, h) + (IF h \in { o.dn[i] : i \in DOMAIN o.dn } THEN 1 ELSE 0) # 1 }
-DoubleSet(o) == { h \in 1..cfg.n : InFlight(o.pd, h) > 1 }
+LostSet(o, sc, ds) == { h \in sc : h \notin ds /\ Occ(o.tq, h) + InFlight(o.pd, h) + (IF h \in { o.dn[i] : i \in DOMAIN o.dn } THEN 1 ELSE 0) # 1 }
+DoubleSet(o) == { h \in DOMAIN cfg.body : InFlight(o.pd, h) > 1 }
 
 EvDisc(e) == {e.ev} \cup (IF e.ev = "Deliver" THEN {e.args.v} ELSE {})
 
-Init == l = 1 /\ cfg = [n |-> 0, body |-> <<>>, w |-> 0] /\ sched = 0 /\ nd = 0 /\ dset = {} /\ viol = {}
+Init == l = 1 /\ cfg = [n |-> 0, body |-> <<>>, w |-> 0] /\ sched = {} /\ nd = 0 /\ dset = {} /\ viol = {}
         /\ fired = [c \in Clauses |-> 0]
 
 \* a signature (clause, discriminator) is reported once, with the first line it failed at: the set stays small however
@@ -68,7 +70,7 @@ FoldBatches(bs, i, have, acc) ==
                     acc \cup { <<"InOrderGapFree", {d}, l>> : d \in OrderFails(r, have) }
                         \cup { <<"BodyMatchesHeader", {d}, l>> : d \in BodyFails(r) })
 
-AllNums(bs) == UNION { { bs[i][k][1] : k \in DOMAIN bs[i] } : i \in DOMAIN bs }
+AllNums(bs) == UNION { { bs[i][k][5] : k \in DOMAIN bs[i] } : i \in DOMAIN bs }
 RECURSIVE Flatten(_, _)
 Flatten(bs, i) == IF i > Len(bs) THEN <<>> ELSE bs[i] \o Flatten(bs, i + 1)
 
@@ -77,7 +79,7 @@ Step ==
    /\ l' = l + 1
    /\ LET e == TraceLog[l] IN
       CASE e.ev = "reset" ->
-              /\ cfg' = [n |-> 0, body |-> <<>>, w |-> 0] /\ sched' = 0 /\ nd' = 0 /\ dset' = {}
+              /\ cfg' = [n |-> 0, body |-> <<>>, w |-> 0] /\ sched' = {} /\ nd' = 0 /\ dset' = {}
               /\ UNCHANGED <<viol, fired>>
         [] e.ev = "abort" -> UNCHANGED <<cfg, sched, nd, dset, viol, fired>>
         [] e.ev = "Init" ->
@@ -95,28 +97,28 @@ Step ==
                   fl == Flatten(bs, 1) IN
               /\ nd' = f.have
               /\ dset' = dset \cup AllNums(bs)
-              /\ sched' = cfg.n
+              /\ sched' = sched \cup (1..cfg.n)
               /\ viol' = AddViol(f.v
                            \cup { <<"EachOnce", {d}, l>> : d \in OnceFails(fl, dset) }
-                           \cup (IF f.have = cfg.n /\ dset' = 1..cfg.n THEN {} ELSE { <<"CompletesWithHonestPeer", {"incomplete"}, l>> })
-                           \cup { <<"WorkNeverLost", {"Complete"}, l>> : h \in LostSet(e.obs, cfg.n, dset') })
+                           \cup (IF f.have = cfg.n /\ (1..cfg.n) \subseteq dset' THEN {} ELSE { <<"CompletesWithHonestPeer", {"incomplete"}, l>> })
+                           \cup { <<"WorkNeverLost", {"Complete"}, l>> : h \in LostSet(e.obs, sched', dset') })
               /\ fired' = Bump({"CompletesWithHonestPeer"} \cup (IF Len(fl) > 0 THEN {"InOrderGapFree", "EachOnce", "BodyMatchesHeader"} ELSE {}))
               /\ UNCHANGED cfg
         [] OTHER ->
               LET r   == IF e.ev = "Results" THEN e.res.r ELSE <<>>
-                  sc  == IF e.ev = "Schedule" THEN sched + e.res.ins ELSE sched
-                  ds  == dset \cup { r[i][1] : i \in DOMAIN r } IN
+                  sc  == IF e.ev = "Schedule" THEN sched \cup { e.res.acc[i] : i \in DOMAIN e.res.acc } ELSE sched
+                  ds  == dset \cup { r[i][5] : i \in DOMAIN r } IN
               /\ sched' = sc /\ nd' = nd + Len(r) /\ dset' = ds
               /\ viol' = AddViol(
                         { <<"InOrderGapFree", {d}, l>> : d \in OrderFails(r, nd) }
                    \cup { <<"EachOnce", {d}, l>> : d \in OnceFails(r, dset) }
                    \cup { <<"BodyMatchesHeader", {d}, l>> : d \in BodyFails(r) }
                    \* a chunk offered in chain order must be taken up entirely, otherwise the range cannot complete
-                   \cup (IF e.ev = "Schedule" /\ e.res.ins # e.args.k THEN { <<"WorkNeverLost", {"Schedule", "refused"}, l>> } ELSE {})
+                   \cup (IF e.ev = "Schedule" /\ e.args.v = "ok" /\ e.res.ins # Len(e.args.chunk) THEN { <<"WorkNeverLost", {"Schedule", "refused"}, l>> } ELSE {})
                    \cup { <<"WorkNeverLost", EvDisc(e), l>> : h \in LostSet(e.obs, sc, ds) }
                    \cup { <<"NoDoubleAssign", EvDisc(e), l>> : h \in DoubleSet(e.obs) })
               /\ fired' = Bump((IF Len(r) > 0 THEN {"InOrderGapFree", "EachOnce", "BodyMatchesHeader"} ELSE {})
-                               \cup (IF sc > Cardinality(ds) THEN {"WorkNeverLost"} ELSE {})
+                               \cup (IF sc \ ds # {} THEN {"WorkNeverLost"} ELSE {})
                                \cup (IF \E p \in DOMAIN e.obs.pd : Len(e.obs.pd[p]) > 0 THEN {"NoDoubleAssign"} ELSE {}))
               /\ UNCHANGED cfg
 
